@@ -69,6 +69,18 @@ func runCompRace(x *X) {
 	var wg sync.WaitGroup
 	var panics []string
 	var pmu sync.Mutex
+	// the goroutines either finish or are blocked for good on the component's own locks: ten virtual
+	// minutes tell the two apart (a bare wg.Wait would end the bubble in synctest's deadlock panic)
+	wedged := false
+	waitAll := func() bool {
+		if wedged {
+			return false
+		}
+		if !x.WaitFree(&wg, "C12", "hammering the "+which) {
+			wedged = true
+		}
+		return !wedged
+	}
 	run := func(g int, fn func(g, i, op int)) {
 		wg.Add(1)
 		go func() {
@@ -120,7 +132,9 @@ func runCompRace(x *X) {
 				}
 			})
 		}
-		wg.Wait()
+		if !waitAll() {
+			return
+		}
 		// a pattern the mix above rarely produces: one failure short of the threshold, a pause longer
 		// than the counting interval, then everybody at once (the expired count is cleared by
 		// whoever comes first -- while the others are reading it)
@@ -167,7 +181,9 @@ func runCompRace(x *X) {
 				}
 			})
 		}
-		wg.Wait()
+		if !waitAll() {
+			return
+		}
 		x.Probe("limiter-hammered")
 	case "wspool":
 		pool := loadbalancer.NewWebSocketPool(c.Intn(4, "maxidle"), 100, time.Duration(1+c.Intn(40, "idle-s"))*time.Second)
@@ -200,7 +216,9 @@ func runCompRace(x *X) {
 				}
 			})
 		}
-		wg.Wait()
+		if !waitAll() {
+			return
+		}
 		pool.Shutdown()
 		x.Probe("wspool-hammered")
 	case "balancer":
@@ -251,7 +269,9 @@ func runCompRace(x *X) {
 				}
 			})
 		}
-		wg.Wait()
+		if !waitAll() {
+			return
+		}
 		lb.Stop()
 		x.Probe("balancer-hammered")
 	case "metrics":
@@ -283,7 +303,9 @@ func runCompRace(x *X) {
 				}
 			})
 		}
-		wg.Wait()
+		if !waitAll() {
+			return
+		}
 		x.Probe("metrics-hammered")
 	}
 	x.Probe("race-run-completed")
